@@ -25,7 +25,7 @@ ux, uy = ["f", "u", "x"], ["f", "u", "y"]
 QUOTE = {"generic": '"', "sqlite": '"', "postgresql": '"', "mssql": '"', "oracle": '"', "mysql": "`"}
 PAR = {"generic": "?", "sqlite": "?", "mssql": "?", "oracle": "?", "mysql": "%s", "postgresql": "$"}
 
-CONSTRUCTS = ["from_sub", "join_sub", "in_sub", "notin_sub", "cmp_sub", "sel_sub", "cte", "setop_right", "setop_base"]
+CONSTRUCTS = ["from_sub", "join_sub", "in_sub", "notin_sub", "cmp_sub", "sel_sub", "cte", "setop_right", "setop_base", "setop_third", "setop_mid"]
 
 
 def leaf_prog(leaf, q):
@@ -42,6 +42,7 @@ def leaf_prog(leaf, q):
         "bool_crit": [["from", U], ["select", [k(ux)]], ["where", ["cmp", "=", uy, ["raw", False]]]],
         "array": [["from", U], ["select", [k(["array", [["raw", 1], ["raw", 2]]])]]],
         "interval": [["from", U], ["select", [k(["arith", "+", ux, ["interval", {"days": 1, "hours": 2}]])]]],
+        "interval_zero": [["from", U], ["select", [k(["arith", "+", ux, ["interval", {"days": 0}]]), ["arith", "-", uy, ["interval", {}]]]]],
         "interval_kw": [["from", U], ["select", [k(["arith", "+", ux, ["interval", {"days": 1, "hours": 2, "dialect": "MYSQL"}]]),
                                                  ["arith", "-", uy, ["interval", {"hours": 36, "dialect": "POSTGRESQL"}]]]]],
         "json_esc": [["from", U], ["select", [k(ux), ["json", {"$dict": [["s", "q\\r\"t'u"]]}]]],
@@ -61,7 +62,7 @@ def leaf_prog(leaf, q):
     return {"calls": c, "q": q}
 
 
-def embed(construct, inner, q, level):
+def embed(construct, inner, q, level, d=None):
     """wrap inner into an outer query that again selects one column aliased k"""
     s = "s%d" % level
     k = lambda e: ["as", e, "k"]  # noqa
@@ -76,12 +77,22 @@ def embed(construct, inner, q, level):
         "cte": [["with", "c%d" % level, inner], ["from", ["cte", "c%d" % level]], ["select", [k(["f", "c%d" % level, "k"])]]],
         "setop_right": [["from", T], ["select", [k(ta)]], ["union_all", inner]],
         "setop_base": inner["calls"] + [["union", {"calls": [["from", T], ["select", [k(ta)]]], "q": q}]],
+        # chains of three whose other operand comes from a class with the *other* operand-wrapping convention: the statement's
+        # class decides for every operand
+        "setop_third": [["from", T], ["select", [k(ta)]], ["union", {"calls": [["from", ["t", "v"]], ["select", [["f", "v", "x"]]]], "q": _contrast(d)}],
+                        ["union_all", inner]],
+        "setop_mid": [["from", T], ["select", [k(ta)]], ["union_all", inner],
+                      ["union", {"calls": [["from", ["t", "v"]], ["select", [["f", "v", "x"]]]], "q": _contrast(d)}]],
     }[construct]
     return {"calls": c, "q": q}
 
 
+def _contrast(d):
+    return "generic" if d == "mysql" else "mysql"
+
+
 NEUTRAL = {"ident", "ident_backtick", "value", "value2", "backslash", "inlist5", "json_esc", "json", "jsondict", "jsondict_set", "orderalias", "setop_orderalias"}
-LEAVES = ["ident", "ident_backtick", "interval_reflected", "groupalias_other", "value", "value2", "backslash", "inlist5", "bool", "bool_crit", "array", "interval", "interval_kw", "json", "json_esc", "jsondict", "jsondict_set", "groupalias", "orderalias",
+LEAVES = ["ident", "ident_backtick", "interval_reflected", "groupalias_other", "value", "value2", "backslash", "inlist5", "bool", "bool_crit", "array", "interval", "interval_zero", "interval_kw", "json", "json_esc", "jsondict", "jsondict_set", "groupalias", "orderalias",
           "setop_orderalias", "limit"]
 
 
@@ -124,7 +135,7 @@ def build_prog(leaf, path, inner_cls, d):
     # innermost first: path[-1] embeds the leaf, path[0] is the outermost construct
     for level, c in enumerate(reversed(path)):
         outermost = level == len(path) - 1
-        p = embed(c, p, None if outermost else q_inner, level)
+        p = embed(c, p, None if outermost else q_inner, level, d)
     p["q"] = None
     return p
 
